@@ -27,7 +27,7 @@ from vf.gen import omkm_model as G
 from vf.ref import cti as C
 
 ID = 'C07'
-N = {'quick': 2200, 'thorough': 40000}
+N = {'quick': 5000, 'thorough': 150000}
 WEIGHTS = {'model': 20, 'history': 35, 'reactor': 45}
 NT_RULE = ('case kinds: model (units x 1-4 phases x 2-40 Nasa/Nasa9/Shomate species x 0-40 surface reactions '
            'x BEPs x lateral interactions, phases populated at construction / through organize_phases / '
@@ -72,9 +72,11 @@ ASSUMPTIONS = [
     '0.5; beta as given or 1 (0 for adsorption); Ea given (kcal/mol) -> converted; otherwise '
     'max(0, activation, reaction) x R T of H (adsorption) or G, species H/RT and G/RT from the species\' own '
     'getters, a BEP transition state contributing (slope_adj x descriptor + intercept)/RT',
-    'tolerances: untouched numbers exact in YAML (1e-12) and to the printed 9 digits in CTI (1e-8); '
-    'unit-converted numbers 5e-5 (pMuTT tabulates cal = 1/0.239006 J, 4e-7 from 4.184) relative to the '
-    'largest term; CTI rate parameters additionally the printed 6 digits',
+    'tolerances: untouched numbers exact in YAML (1e-12) and to the printed 9 digits in CTI (1e-8, the '
+    'rounding bound 5e-9 is a hard limit); unit-converted numbers 2e-4 relative to the largest term (pMuTT '
+    'tabulates cal = 1/0.239006 J, 4.4e-7 from 4.184, CODATA-2014 kB/h and NA: observed maximum 1.1e-6; the '
+    'nearest realistic wrong constant, the IT calorie, is 6.7e-4 away); CTI rate parameters 2.1e-4 (adds the '
+    'printed 6 digits, 5e-6)',
     'history: list semantics (append/extend at the end, remove = first occurrence, pop(i)); a species may sit '
     'in several phases; remove/pop only address entries present in the model',
     'reactor YAML: option -> key as documented in write_yaml\'s docstring; a number given with `units` must '
@@ -83,8 +85,8 @@ ASSUMPTIONS = [
 ]
 TOL_EXACT = 1e-12
 TOL_CTI9 = 1e-8
-TOL_CONV = 5e-5
-TOL_CTI_RATE = 6e-5
+TOL_CONV = 2e-4
+TOL_CTI_RATE = 2.1e-4
 
 
 # ====================================================================== cases
@@ -587,8 +589,8 @@ def _build(spec, ctx, check_history=True):
     M.phases = []
     if mode == 'organize':
         mech = {'file': 'history', 'rule': 'Y4', 'entity': 'phase', 'field': 'species', 'after': 'organize_phases'}
-        if spec['beps']:
-            mech['bep_named'] = all(b['name'] is not None for b in spec['beps'])
+        if any(b['name'] is None for b in spec['beps']):
+            mech['bep_named'] = False
         phs = ctx.call('YH', mech, organize_phases, G.organize_data(spec), species=list(M.species_list),
                        reactions=list(M.reactions) or None, interactions=list(M.interactions) or None)
         if phs is core.NOVALUE:
@@ -787,8 +789,8 @@ def _diagnose(spec, M, method, writer_exc):
                         extra['bep_named'] = o.name is not None
                     if entity == 'interaction':
                         extra['quantity'] = spec['units']['quantity']
-                    if entity == 'phase' and spec['beps']:
-                        extra['bep_named'] = all(b['name'] is not None for b in spec['beps'])
+                    if entity == 'phase' and any(b['name'] is None for b in spec['beps']):
+                        extra['bep_named'] = False
                     k = (type(o).__name__, tuple(sorted(extra.items())))
                     if k not in seen:
                         seen.add(k)
